@@ -145,4 +145,46 @@ theorem solveAugmented_none_ev (aug : Mat F) (n : ℕ) (hW : ∀ r ∈ aug, r.le
   rw [ev, hsum, zero_sub, neg_eq_zero, hrow] at h0
   exact of_decide_eq_true hne h0
 
+/-! ## the augmented systems built by `solveRight` / `solveLeft` -/
+
+omit [DecidableEq F] in
+/-- rows of the augmented matrix `[M | b]` are satisfied by `x` iff `M x = b` -/
+theorem augmented_solves_iff (m : Mat F) (n : ℕ) (b x : List F) (hm : ∀ r ∈ m, r.length = n)
+    (hb : b.length = m.length) :
+    (∀ row ∈ List.zipWith (fun r bi => r ++ [bi]) m b, dot (row.take n) x = row.getD n 0) ↔
+      mulVec m x = b := by
+  induction m generalizing b with
+  | nil =>
+    cases b with
+    | nil => simp [mulVec]
+    | cons _ _ => simp at hb
+  | cons r m ih =>
+    cases b with
+    | nil => simp at hb
+    | cons bi b =>
+      have hr : r.length = n := hm r (List.mem_cons_self)
+      have hm' : ∀ r' ∈ m, r'.length = n := fun r' h => hm r' (List.mem_cons_of_mem _ h)
+      have hb' : b.length = m.length := by simpa using hb
+      have h1 : (r ++ [bi]).take n = r := by rw [← hr]; exact List.take_left
+      have h2 : (r ++ [bi]).getD n 0 = bi := by
+        rw [← hr]; simp [List.getD_eq_getElem?_getD]
+      simp only [List.zipWith_cons_cons, List.forall_mem_cons, h1, h2, ih b hm' hb']
+      simp [mulVec]
+
+omit [Field F] [DecidableEq F] in
+theorem augmented_width (m : Mat F) (n : ℕ) (b : List F) (hm : ∀ r ∈ m, r.length = n) :
+    ∀ row ∈ List.zipWith (fun r bi => r ++ [bi]) m b, row.length = n + 1 := by
+  intro row hrow
+  obtain ⟨i, hi, rfl⟩ := List.mem_iff_getElem.mp hrow
+  simp only [List.getElem_zipWith, List.length_append, List.length_singleton]
+  rw [hm _ (List.getElem_mem _)]
+
+omit [Field F] [DecidableEq F] in
+theorem transposeN_width {F : Type} [OfNat F 0] (m : Mat F) (n : ℕ) :
+    ∀ r ∈ transposeN m n, r.length = m.length := by
+  intro r hr
+  simp only [transposeN, List.mem_map] at hr
+  obtain ⟨j, -, rfl⟩ := hr
+  simp
+
 end BronVerif.LinAlg
